@@ -597,3 +597,43 @@ def guard_literals(fn, want):
     finally:
         LETS.clear()
     return out
+
+
+def sources_of_arg(fn, arg_n):
+    """skeletons of what flows into a call argument: the expression itself, or -- when it is a local -- its initialiser,
+    the arguments of the insert/extend/push calls that fill it and the iterated expressions of the loops around them"""
+    if arg_n is None:
+        return ""
+    x = arg_n
+    while x.get("k") in ("Ref", "Paren", "Group"):
+        x = x["e"]
+    if not (x.get("k") == "Path" and len(x["path"]["segs"]) == 1):
+        return expr_skel(arg_n)
+    var = x["path"]["s"]
+    srcs = []
+    for st in find_all(fn, lambda y: y.get("k") == "Let"):
+        p_ = st.get("pat") or {}
+        while p_.get("k") == "PType":
+            p_ = p_["pat"]
+        if p_.get("k") == "PIdent" and p_.get("id") == var and st.get("init") is not None:
+            srcs.append(expr_skel(st["init"]))
+
+    def fills(node, loops):
+        if isinstance(node, list):
+            for y in node:
+                fills(y, loops)
+            return
+        if not isinstance(node, dict):
+            return
+        if node.get("k") == "For":
+            fills(node["body"], loops + [expr_skel(node["iter"])])
+            return
+        if node.get("k") == "MethodCall" and node["method"] in ("insert", "extend", "push", "entry") and \
+                node["recv"].get("k") == "Path" and node["recv"]["path"]["s"] == var:
+            srcs.extend(loops)
+            srcs.extend(expr_skel(a_) for a_ in node["args"])
+        for v_ in node.values():
+            if isinstance(v_, (dict, list)):
+                fills(v_, loops)
+    fills(fn.get("body"), [])
+    return " ; ".join(srcs) or expr_skel(arg_n)
